@@ -499,6 +499,15 @@ class Case:
                 symptom = f"{la}~{lb}:same-files-different-diagnostics"
                 shape = T.tree_features(self.tree)
         sig = f"a|{symptom}|{','.join(shape) or 'plain'}"
+        if a["kind"] != "usage" and b["kind"] != "usage":
+            # cause-level grouping: a file that one command takes as a source / checks and the other leaves out
+            fa = {self.short(p) for p, _m, _b in a["sources"] if p} | set(a["checked"])
+            fb = {self.short(p) for p, _m, _b in b["sources"] if p} | set(b["checked"])
+            left_out = [f for f in fa ^ fb if f in self.tree]
+            for dominant in ("module-beside-initless-dir", "module-beside-package-dir"):
+                if any(dominant in T.local_shape(self.tree, f) for f in left_out):
+                    sig = f"a|file-left-out|{dominant}"
+                    break
         self.violations.append({
             "signature": sig,
             "what": f"tree {list(self.tree)} [{cfg_name(self.cfg)}] target {d or '.'}: `mypy {' '.join(a['args'])}` -> "
@@ -691,7 +700,7 @@ EPB_EXTRA = [c for c in EXTRA_CONFIGS if c["opt"] == "ns1epb"]
 
 def layers_for(ctx: Ctx) -> list[dict]:
     """The stated finite space, as a list of layers; each layer is enumerated completely.
-    (Sizes were chosen from measured costs: ~25 ms CPU per build, quick <= ~45 k builds, thorough <= ~650 k.)"""
+    (Sizes were chosen from measured costs: ~25 ms CPU per build; quick ~50 k builds, thorough ~500 k.)"""
     if ctx.quick:
         return [
             {"name": "Q1: <=2 files, depth<=2, full 12-configuration grid; DIR, FILES in every order, -p, -m, single files",
@@ -713,11 +722,9 @@ def layers_for(ctx: Ctx) -> list[dict]:
          "depth": 1, "sizes": [4], "configs": CORE_CONFIGS, "plan": {"orders": "rot", "modules": False, "singles": False}},
         {"name": "T5: <=2 files, depth exactly 3, cwd=root/MYPYPATH unset x 3 option sets; everything",
          "depth": 3, "min_depth": 3, "sizes": [1, 2], "configs": CORE_CONFIGS, "plan": EVERYTHING},
-        {"name": "T6: 4 files, depth<=2, explicit_package_bases, cwd=root/MYPYPATH unset; DIR(root), FILES reversed, DIR(D) vs -p D",
-         "depth": 2, "sizes": [4], "configs": EPB_CORE, "plan": LIGHT},
-        {"name": "T7 (screened): 4 files, depth<=2, namespace_packages off, cwd=root/MYPYPATH unset; source lists of DIR, FILES, -p "
-                 "compared for every tree; builds only for targets whose source lists differ",
-         "depth": 2, "sizes": [4], "configs": [c for c in CORE_CONFIGS if c["opt"] == "ns0"], "plan": SCREENED},
+        {"name": "T6 (screened): 4 files, depth<=2, cwd=root/MYPYPATH unset, explicit_package_bases and namespace_packages off; source "
+                 "lists of DIR, FILES, -p compared for every tree; builds (DIR, FILES reversed, -p) only for targets whose source lists differ",
+         "depth": 2, "sizes": [4], "configs": [c for c in CORE_CONFIGS if c["opt"] != "ns1"], "plan": SCREENED},
     ]
 
 
